@@ -892,6 +892,64 @@ func main() {
 		}
 		return "def attrFileMacroConditions : List Bytes := " + bytesList(conds)
 	})
+	// ---- commands/uploader.go (C03): which remote-side commits a push leaves out of its scans.
+	// uploadForRefUpdates collects `exclude` (fact: what is appended, and under which condition — "" = always);
+	// uploadRangeOrAll hands it to the scanner (fact: the arguments of ScanMultiRangeToRemote).
+	emit("uploadExclude", func() string {
+		txt := func(e ast.Node) string {
+			var sb strings.Builder
+			printer.Fprint(&sb, token.NewFileSet(), e)
+			return sb.String()
+		}
+		var appended, conds []string
+		var walk func(n ast.Node, cond string)
+		walk = func(n ast.Node, cond string) {
+			ast.Inspect(n, func(m ast.Node) bool {
+				if m == n {
+					return true
+				}
+				if is, ok := m.(*ast.IfStmt); ok {
+					walk(is.Body, txt(is.Cond))
+					if is.Else != nil {
+						walk(is.Else, "!("+txt(is.Cond)+")")
+					}
+					return false
+				}
+				if as, ok := m.(*ast.AssignStmt); ok && len(as.Lhs) == 1 && len(as.Rhs) == 1 {
+					if id, ok := as.Lhs[0].(*ast.Ident); ok && id.Name == "exclude" {
+						if call, ok := as.Rhs[0].(*ast.CallExpr); ok {
+							if fn, ok := call.Fun.(*ast.Ident); ok && fn.Name == "append" && len(call.Args) == 2 {
+								appended = append(appended, txt(call.Args[1]))
+								conds = append(conds, cond)
+							}
+						}
+					}
+				}
+				return true
+			})
+		}
+		walk(cmds.funcDeclRecv("uploadForRefUpdates", "").Body, "")
+		if len(appended) == 0 {
+			die("uploadForRefUpdates no longer appends to `exclude`")
+		}
+		var scanArgs []string
+		ast.Inspect(cmds.funcDeclRecv("uploadRangeOrAll", "").Body, func(n ast.Node) bool {
+			if call, ok := n.(*ast.CallExpr); ok {
+				if se, ok := call.Fun.(*ast.SelectorExpr); ok && se.Sel.Name == "ScanMultiRangeToRemote" {
+					for _, a := range call.Args {
+						scanArgs = append(scanArgs, txt(a))
+					}
+				}
+			}
+			return true
+		})
+		if len(scanArgs) == 0 {
+			die("uploadRangeOrAll no longer calls ScanMultiRangeToRemote")
+		}
+		facts["uploadExclude"] = map[string]interface{}{"appended": appended, "conds": conds, "scanArgs": scanArgs}
+		return "def uploadExcludeAppended : List Bytes := " + bytesList(appended) + "\ndef uploadExcludeConds : List Bytes := " + bytesList(conds) +
+			"\ndef uploadScanArgs : List Bytes := " + bytesList(scanArgs)
+	})
 	// ---- commands/command_track.go (C19)
 	emit("trackEscapeStrings", func() string { return "def trackEscapeStrings : List Bytes := " + bytesList(cmds.strs("trackEscapeStrings")) })
 	emit("trackEscapePatterns", func() string {
